@@ -64,18 +64,78 @@ func unmarshal(t reflect.Type, data []byte) (v reflect.Value, rest int, err erro
 	return p.Elem(), r.Len(), err, ""
 }
 
+// sliceForms returns two copies of v: every EMPTY slice inside replaced by a nil slice, and by an empty non-nil one.
+// Both are the same TL value (an empty bytes / vector); the generated MarshalTL must treat them alike. n is the
+// number of empty slices found.
+func sliceForms(v reflect.Value) (asNil, asEmpty reflect.Value, n int) {
+	asNil = reflect.New(v.Type()).Elem()
+	asNil.Set(v)
+	asEmpty = reflect.New(v.Type()).Elem()
+	asEmpty.Set(v)
+	n = setEmpty(asNil, true)
+	setEmpty(asEmpty, false)
+	return
+}
+
+func setEmpty(v reflect.Value, toNil bool) int {
+	n := 0
+	switch v.Kind() {
+	case reflect.Slice:
+		if v.Len() == 0 {
+			if !v.CanSet() {
+				return 0
+			}
+			if toNil {
+				v.Set(reflect.Zero(v.Type()))
+			} else {
+				v.Set(reflect.MakeSlice(v.Type(), 0, 0))
+			}
+			return 1
+		}
+		if v.Type().Elem().Kind() == reflect.Uint8 {
+			return 0
+		}
+		// elements are shared with the original: copy the backing array first
+		c := reflect.MakeSlice(v.Type(), v.Len(), v.Len())
+		reflect.Copy(c, v)
+		if v.CanSet() {
+			v.Set(c)
+		}
+		for i := 0; i < v.Len(); i++ {
+			n += setEmpty(v.Index(i), toNil)
+		}
+	case reflect.Struct:
+		for i := 0; i < v.NumField(); i++ {
+			if v.Type().Field(i).IsExported() {
+				n += setEmpty(v.Field(i), toNil)
+			}
+		}
+	case reflect.Pointer:
+		if !v.IsNil() {
+			c := reflect.New(v.Type().Elem())
+			c.Elem().Set(v.Elem())
+			if v.CanSet() {
+				v.Set(c)
+			}
+			n += setEmpty(v.Elem(), toNil)
+		}
+	}
+	return n
+}
+
 type callOut struct {
-	payload []byte
-	calls   int
-	res     any // JSON value
-	errv    any // JSON value of a LiteServerErrorC error
-	err     error
-	pan     string
+	payload     []byte
+	calls       int
+	res         any // JSON value
+	errv        any // JSON value of a LiteServerErrorC error
+	err         error
+	pan         string
+	emptySlices int // empty slices in the request value
 }
 
 // call invokes the generated request method of function fn with request value reqv; the connection stub
 // records what the method hands to liteServerRequest and answers with `answer`.
-func call(p Pkg, s *tlval.TvSchema, fn string, reqv any, answer []byte) (o callOut, herr error) {
+func call(p Pkg, s *tlval.TvSchema, fn string, reqv any, answer []byte, nilForm bool) (o callOut, herr error) {
 	d := s.Fn(fn)
 	if d == nil {
 		return o, fmt.Errorf("no function %s", fn)
@@ -94,6 +154,13 @@ func call(p Pkg, s *tlval.TvSchema, fn string, reqv any, answer []byte) (o callO
 		rq, err := s.TvFromJSON(ty(fn), reqv, m.Type().In(1))
 		if err != nil {
 			return o, err
+		}
+		asNil, asEmpty, n := sliceForms(rq)
+		o.emptySlices = n
+		if nilForm {
+			rq = asNil
+		} else {
+			rq = asEmpty
 		}
 		args = append(args, rq)
 	}
@@ -134,6 +201,7 @@ type vec struct {
 	Ty    string `json:"ty"`
 	Op    string `json:"op"`
 	V     any    `json:"v"`
+	Forms string `json:"forms"` // "": both forms of empty slices are marshalled; "nil" / "empty": only that one (canaries)
 	Hex   string `json:"hex"`
 	Body  string `json:"body"`
 	IsErr bool   `json:"is_err"`
@@ -215,13 +283,26 @@ func Replay(in string, w *ev.Writer) error {
 				if err != nil {
 					return fmt.Errorf("schema %d: %v", si.Schema, err)
 				}
-				b, merr, pan := marshal(bv)
-				if pan != "" || merr != nil || hex.EncodeToString(b) != v.Hex {
-					fail("marshal err=%v panic=%q", merr, pan)
-					res["got_hex"] = hex.EncodeToString(b)
-					break
+				// an empty bytes / vector is marshalled in both Go forms: nil slice and empty non-nil slice
+				asNil, asEmpty, _ := sliceForms(bv)
+				allOK := true
+				for _, f := range []struct {
+					name string
+					v    reflect.Value
+				}{{"empty", asEmpty}, {"nil", asNil}} {
+					if v.Forms != "" && v.Forms != f.name {
+						continue
+					}
+					b, merr, pan := marshal(f.v)
+					if pan != "" || merr != nil || hex.EncodeToString(b) != v.Hex {
+						fail("marshal (empty slices as %s) err=%v panic=%q", f.name, merr, pan)
+						res["got_hex"] = hex.EncodeToString(b)
+						res["form"] = f.name
+						allOK = false
+						break
+					}
 				}
-				res["match"] = true
+				res["match"] = allOK
 			case "Fn":
 				tag, name, val, derr := p.Decode(append([]byte{}, data...))
 				d := s.Fn(v.Ty)
@@ -241,24 +322,34 @@ func Replay(in string, w *ev.Writer) error {
 				res["match"] = true
 			case "Call":
 				body, _ := hex.DecodeString(v.Body)
-				o, err := call(p, s, v.Ty, v.V, body)
-				if err != nil {
-					return fmt.Errorf("schema %d: %v", si.Schema, err)
-				}
-				switch {
-				case o.pan != "":
-					fail("panic %s", o.pan)
-				case o.calls != 1 || hex.EncodeToString(o.payload) != v.Hex:
-					fail("request bytes differ (%d requests)", o.calls)
-					res["got_hex"] = hex.EncodeToString(o.payload)
-				case v.IsErr && (o.err == nil || o.errv == nil || tlval.TvCanon(o.errv) != tlval.TvCanon(v.ResV)):
-					fail("error answer not returned as that error: err=%v", o.err)
-					res["got_v"] = o.errv
-				case !v.IsErr && (o.err != nil || tlval.TvCanon(o.res) != tlval.TvCanon(v.ResV)):
-					fail("result differs: err=%v", o.err)
-					res["got_v"] = o.res
-				default:
-					res["match"] = true
+				// the request with its empty slices as non-nil slices, and (when it has any) as nil slices
+				for _, nilForm := range []bool{false, true} {
+					o, err := call(p, s, v.Ty, v.V, body, nilForm)
+					if err != nil {
+						return fmt.Errorf("schema %d: %v", si.Schema, err)
+					}
+					res["match"] = false
+					switch {
+					case o.pan != "":
+						fail("panic %s", o.pan)
+					case o.calls != 1 || hex.EncodeToString(o.payload) != v.Hex:
+						fail("request bytes differ (%d requests, empty slices as nil: %v)", o.calls, nilForm)
+						res["got_hex"] = hex.EncodeToString(o.payload)
+					case v.IsErr && (o.err == nil || o.errv == nil || tlval.TvCanon(o.errv) != tlval.TvCanon(v.ResV)):
+						fail("error answer not returned as that error: err=%v", o.err)
+						res["got_v"] = o.errv
+					case !v.IsErr && (o.err != nil || tlval.TvCanon(o.res) != tlval.TvCanon(v.ResV)):
+						fail("result differs: err=%v", o.err)
+						res["got_v"] = o.res
+					default:
+						res["match"] = true
+					}
+					if res["match"] == false && nilForm {
+						res["form"] = "nil"
+					}
+					if res["match"] == false || o.emptySlices == 0 {
+						break
+					}
 				}
 			default:
 				return fmt.Errorf("unknown op %q", v.Op)
@@ -321,6 +412,20 @@ func Drive(in string, w *ev.Writer, seed int64, per int) error {
 				gv, err := s.TvFromJSON(ty(tg[0]), val, t)
 				if err != nil {
 					return fmt.Errorf("schema %d %s: %v", si.Schema, tg[0], err)
+				}
+				// empty bytes / vectors as nil slices in every other value (both are the same TL value), and where a value
+				// has any, the other form as an event of its own
+				asNil, asEmpty, nEmpty := sliceForms(gv)
+				gv, other := asEmpty, asNil
+				if n%2 == 1 {
+					gv, other = asNil, asEmpty
+				}
+				if nEmpty > 0 {
+					if b2, merr2, pan2 := marshal(other); pan2 != "" {
+						w.Emit(ev.M{"k": "Panic", "op": "Marshal", "ty": tg[0], "v": val, "panic": pan2})
+					} else {
+						w.Emit(ev.M{"k": "Marshal", "ty": tg[0], "op": tg[1], "v": val, "hex": hex.EncodeToString(b2), "err": ev.ErrClass(merr2)})
+					}
 				}
 				b, merr, pan := marshal(gv)
 				if pan != "" {
@@ -390,7 +495,7 @@ func Drive(in string, w *ev.Writer, seed int64, per int) error {
 				if n%7 == 6 && len(answer) > 4 {
 					answer = answer[:4+rng.Intn(len(answer)-4)] // truncated answer: must come back as an error
 				}
-				o, err := call(p, s, d.Ctor, reqv, answer)
+				o, err := call(p, s, d.Ctor, reqv, answer, n%2 == 1)
 				if err != nil {
 					return fmt.Errorf("schema %d %s: %v", si.Schema, d.Ctor, err)
 				}
